@@ -255,7 +255,9 @@ Definition log10 (x : R) : R := (ln x / ln 10)%R.
 Definition mu_of (c : R) (dl : R) : R := (5 * log10 dl + c)%R.
 
 (* ------------------------------------------------------------------ the executable instance *)
-Definition Qleb (x y : Q) : bool := Qle_bool x y.
+(* Qle_bool with the factors of each product swapped: Pos.mul recurses on its first argument, and the
+   denominators of floats are powers of two, which makes this an order of magnitude faster under vm_compute *)
+Definition Qleb (x y : Q) : bool := Z.leb (Zpos (Qden y) * Qnum x) (Zpos (Qden x) * Qnum y).
 Definition sqrt_prec : positive := 128.
 (* floor(2^128 / sqrt(q)) / 2^128 for q > 0: a dyadic rational within 2^-128 of 1/sqrt(q)
    (floor(sqrt(t)) = Z.sqrt(floor(t))).  For q <= 0 (numpy: inf or nan) the value is 0: outside the
